@@ -191,6 +191,28 @@ def jobs_for(tier, seed):
                 jobs.append((proto, data, [len(data)]))
                 jobs.append((proto, data, [1] * len(data)))
                 jobs.append((proto, data, [7] * (len(data) // 7) + ([len(data) % 7] if len(data) % 7 else [])))
+    # systematic single-position damage of well-formed multi-frame streams: every byte replaced by each of a set of
+    # telling values, deleted, or preceded by an inserted start byte
+    bases = {
+        "luba": [luba_frame(0x31, [0, 0, 0, 0x80 | 8, 0x11]) + luba_frame(0x31, [0, 0, 0, 16, 7, 0xA0, 0x05]) + luba_frame(0x31, [0, 0, 0, 0x80 | 8, 0x22]),
+                 luba_frame(0x33, [9, 0]) + luba_frame(0x31, [0, 0, 0, 0x80 | 16, 0xFF, 0x90]) + luba_frame(0x31, [0, 0, 0, 0x80 | 8, 0x59])],
+        "sci": [sci_block(0x12, [0, 0, 0x11]) + sci_block(0x10, [0, 0, 0]) + sci_block(0x13, [0, 0xA1, 0x05]) + sci_block(0x12, [0, 0, 0x22]),
+                sci_block(0x18, [0xC1, 0x06, 0x30]) + sci_block(0x12, [0, 0, 0x59])],
+    }
+    for proto, streams in bases.items():
+        for base in streams:
+            variants = []
+            for pos in range(len(base)):
+                o = base[pos]
+                for v in sorted({0x59, 0x00, 0x01, 0x31, 0x33, 0x12, 0xFF, o ^ 1, (o + 1) % 256, o ^ 0x80} - {o}):
+                    variants.append(base[:pos] + [v] + base[pos + 1:])
+                variants.append(base[:pos] + base[pos + 1:])
+                variants.append(base[:pos] + [0x59] + base[pos:])
+            tail = luba_frame(0x31, [0, 0, 0, 0x80 | 8, 0x42]) * 2 if proto == "luba" else sci_block(0x12, [0, 0, 0x42]) * 2
+            for vdata in variants:
+                data = vdata + tail
+                jobs.append((proto, data, [len(data)]))
+                jobs.append((proto, data, [1] * len(data)))
     # every length byte at the length position, followed by a well-formed frame
     for ln in range(256):
         data = [0x59, 0x31, ln] + luba_frame(0x31, [0, 0, 0, 0x80 | 8, 0x42]) * 3
